@@ -2,169 +2,55 @@ package main
 
 import (
 	"fmt"
-	"os"
-	"strconv"
-	"sync"
 	"time"
 
 	"github.com/VolantMQ/vlapi/mqttp"
 )
 
-// ackRace: the acknowledgement of a retransmitted message (identifier 1, re-acquired at reconnect while the
-// identifier counter of the new connection is still 0) frees identifier 1; the writer, woken by the freed quota,
-// hands identifier 1 to the next message at once.  If the acknowledgement's own clean-up of "identifier 1" runs
-// after that, the NEW message is no longer registered as unacknowledged: its PUBACK frees nothing (Receive
-// Maximum 1: nothing is ever sent again) and a connection end does not persist it.
-// Returns (iterations run, stalls seen).
-func ackRace(iters int) (int, int, string) {
-	b, err := NewBroker(BrokerOpts{})
-	if err != nil {
-		return 0, 0, err.Error()
-	}
-	defer b.Drop()
-	forever := uint32(0xFFFFFFFF)
-	pc := b.Dial()
-	if _, err := pc.Connect(ConnectOpts{ID: "P", Ver: mqttp.ProtocolV311, Clean: true}); err != nil {
-		return 0, 0, err.Error()
-	}
-	pa := pc.Auto(false)
-	seq := 0
-	pub := func() int {
-		seq++
-		_ = pa.SendL(mkPublish(mqttp.ProtocolV311, "t", []byte{byte(seq >> 16), byte(seq >> 8), byte(seq)}, 1, false, uint16(seq%60000+1)))
-		return seq
-	}
-	connect := func() (*Client, error) {
-		// the end of the previous connection may still be in progress (no pre-emption: the CONNECT is refused then)
-		for try := 0; ; try++ {
+func init() {
+	// experiment: unacknowledged messages of a v5 client that uses topic aliases, across a reconnect
+	subcmds["dbg"] = func(args []string) int {
+		b, _ := NewBroker(BrokerOpts{})
+		forever := uint32(0xFFFFFFFF)
+		connect := func() *Client {
 			cl := b.Dial()
-			ack, err := cl.Connect(ConnectOpts{ID: "S", Ver: mqttp.ProtocolV50, Clean: false, Expiry: &forever, RecvMax: 1})
+			_, err := cl.Connect(ConnectOpts{ID: "S", Ver: mqttp.ProtocolV50, Clean: false, Expiry: &forever, AliasMax: 5})
 			if err != nil {
-				return cl, err
+				fmt.Println("connect:", err)
 			}
-			if ack.ReturnCode() == 0 {
-				return cl, nil
+			return cl
+		}
+		s := connect()
+		_ = s.Send(mkSubscribe(mqttp.ProtocolV50, 1, []string{"a/#"}, []byte{1}))
+		_, _ = s.Recv(2 * time.Second)
+		pc := b.Dial()
+		_, _ = pc.Connect(ConnectOpts{ID: "P", Ver: mqttp.ProtocolV311, Clean: true})
+		pa := pc.Auto(false)
+		for i := 1; i <= 2; i++ {
+			_ = pa.SendL(mkPublish(mqttp.ProtocolV311, "a/b", []byte{byte(i)}, 1, false, uint16(i)))
+		}
+		show := func(cl *Client, n int, label string) {
+			for i := 0; i < n; i++ {
+				pk, err := cl.Recv(2 * time.Second)
+				fmt.Printf("%s: raw=% x err=%v", label, cl.LastRaw, err)
+				if m, ok := pk.(*mqttp.Publish); ok {
+					fmt.Printf(" topic=%q payload=%v dup=%v alias=%v", m.Topic(), m.Payload(), m.Dup(), m.PropertyGet(mqttp.PropertyTopicAlias) != nil)
+				}
+				fmt.Println()
+				if err != nil {
+					return
+				}
 			}
-			cl.Close()
-			if try > 200 {
-				return cl, fmt.Errorf("CONNECT refused: %d", ack.ReturnCode())
-			}
+		}
+		show(s, 2, "first connection")
+		d0 := b.Met.Disconnected()
+		s.Close()
+		for dl := time.Now().Add(3 * time.Second); time.Now().Before(dl) && b.Met.Disconnected() == d0; {
 			time.Sleep(time.Millisecond)
 		}
-	}
-	recvPub := func(cl *Client, d time.Duration) (*mqttp.Publish, bool) {
-		dl := time.Now().Add(d)
-		for time.Now().Before(dl) {
-			pk, err := cl.Recv(time.Until(dl))
-			if err != nil {
-				return nil, false
-			}
-			if m, ok := pk.(*mqttp.Publish); ok {
-				return m, true
-			}
-		}
-		return nil, false
-	}
-	tagOf := func(m *mqttp.Publish) int {
-		p := m.Payload()
-		return int(p[0])<<16 | int(p[1])<<8 | int(p[2])
-	}
-	s, err := connect()
-	if err != nil {
-		return 0, 0, err.Error()
-	}
-	_ = s.Send(mkSubscribe(mqttp.ProtocolV50, 1, []string{"t"}, []byte{1}))
-	if _, err := s.Recv(5 * time.Second); err != nil {
-		return 0, 0, "no suback"
-	}
-	stalls := 0
-	for i := 0; i < iters; i++ {
-		a := pub()
-		m, ok := recvPub(s, 5*time.Second)
-		if !ok || tagOf(m) != a {
-			return i, stalls, fmt.Sprintf("iteration %d: first delivery missing", i)
-		}
-		d0 := b.Met.Disconnected()
-		s.Close() // unacknowledged
-		for dl := time.Now().Add(5 * time.Second); time.Now().Before(dl) && b.Met.Disconnected() == d0; {
-			time.Sleep(100 * time.Microsecond)
-		}
-		if s, err = connect(); err != nil {
-			return i, stalls, err.Error()
-		}
-		m, ok = recvPub(s, 5*time.Second)
-		if !ok || tagOf(m) != a || !m.Dup() {
-			if ok {
-				idx, _ := m.ID()
-				return i, stalls, fmt.Sprintf("iteration %d: retransmission: got tag %d dup %v id %d, want tag %d dup", i, tagOf(m), m.Dup(), idx, a)
-			}
-			return i, stalls, fmt.Sprintf("iteration %d: retransmission missing", i)
-		}
-		id, _ := m.ID()
-		bq := pub() // waits for the quota
-		time.Sleep(200 * time.Microsecond)
-		_ = s.Send(mkAck(mqttp.ProtocolV50, mqttp.PUBACK, uint16(id)))
-		m, ok = recvPub(s, 5*time.Second)
-		if !ok || tagOf(m) != bq {
-			return i, stalls, fmt.Sprintf("iteration %d: second message missing", i)
-		}
-		id2, _ := m.ID()
-		_ = s.Send(mkAck(mqttp.ProtocolV50, mqttp.PUBACK, uint16(id2)))
-		c := pub()
-		m, ok = recvPub(s, 8*time.Second)
-		if !ok {
-			stalls++
-			// the connection is of no use any more: start over with a clean session
-			s.Close()
-			cl := b.Dial()
-			if _, err := cl.Connect(ConnectOpts{ID: "S", Ver: mqttp.ProtocolV50, Clean: true, Expiry: &forever, RecvMax: 1}); err != nil {
-				return i, stalls, err.Error()
-			}
-			s = cl
-			_ = s.Send(mkSubscribe(mqttp.ProtocolV50, 1, []string{"t"}, []byte{1}))
-			if _, err := s.Recv(5 * time.Second); err != nil {
-				return i, stalls, "no suback"
-			}
-			continue
-		}
-		if tagOf(m) != c {
-			return i, stalls, fmt.Sprintf("iteration %d: third message: got %d want %d", i, tagOf(m), c)
-		}
-		id3, _ := m.ID()
-		_ = s.Send(mkAck(mqttp.ProtocolV50, mqttp.PUBACK, uint16(id3)))
-		time.Sleep(100 * time.Microsecond)
-	}
-	return iters, stalls, ""
-}
-
-func init() {
-	subcmds["dbg"] = func(args []string) int {
-		n, par := 500, 8
-		if len(args) > 0 {
-			n, _ = strconv.Atoi(args[0])
-		}
-		if len(args) > 1 {
-			par, _ = strconv.Atoi(args[1])
-		}
-		var wg sync.WaitGroup
-		var mu sync.Mutex
-		total, st := 0, 0
-		for k := 0; k < par; k++ {
-			wg.Add(1)
-			go func() {
-				defer wg.Done()
-				it, s, e := ackRace(n)
-				mu.Lock()
-				total += it
-				st += s
-				if e != "" {
-					fmt.Fprintln(os.Stderr, "err:", e)
-				}
-				mu.Unlock()
-			}()
-		}
-		wg.Wait()
-		fmt.Println("iterations", total, "stalls", st)
+		time.Sleep(50 * time.Millisecond)
+		s2 := connect()
+		show(s2, 2, "after reconnect")
 		return 0
 	}
 }
